@@ -27,7 +27,7 @@ def first_diff(a, b):
 
 def correspondence(rep, *, prop, mod_name, driver_kind, ncases, extra=(), nontrivial=None,
                    oracle_props=None, run_fn="run_impl", index_base=0, sample_fmt=None,
-                   shrink=None, max_report=3, mask_model=None):
+                   shrink=None, max_report=3, mask_model=None, post=None):
     """Runs `ncases` generated cases. Returns aggregated stats. Reports violations into `rep`."""
     oracle_props = oracle_props or {prop}
     t0 = time.time()
@@ -36,6 +36,8 @@ def correspondence(rep, *, prop, mod_name, driver_kind, ncases, extra=(), nontri
     if errs:
         raise lib.Infra("harness error in worker: " + errs[0]["harness_error"] + "\n" + errs[0].get("tb", ""))
     results = [r for r in results if not r.get("skip")]
+    if post:
+        results = [post(r) for r in results]
     t_impl = time.time() - t0
     lines = []
     for r in results:
